@@ -256,7 +256,9 @@ def run_e2(res, tier):
                     key = list(json.loads(ds).keys())[0]
                 except Exception:
                     key = None
-                missing = [n for n in sorted(want) if n not in (w.get("err") or "")]
+                errtxt = w.get("err") or ""
+                tail = errtxt.split("supported by this contract", 1)[-1]
+                missing = [n for n in sorted(want) if not re.search(r"(?<![A-Za-z0-9_])%s(?![A-Za-z0-9_])" % re.escape(n), tail)]
                 if key is not None and key not in want and missing:
                     bad("error for unknown name does not list supported messages %s: %s" % (missing, w.get("err")), "error_lists_names")
         else:
